@@ -51,7 +51,18 @@ def run(run):
         ex = Expr(prog, cb_from)
         inserts = [(bid, t) for bid, t in prog.calls(cb_from)
                    if re.search(r"BTreeMap::<K, V, A>::insert$|::insert$", Program.callee_name(t)) and "Cell" in " ".join(t.get("arg_tys", []))]
-        run.floor("C17.W1", "cell_inserts", len(inserts), 1)
+        ext_sites = []
+        if not inserts:
+            from ..common import cell_extend_sites
+            ext_sites = cell_extend_sites(prog, cb_from)
+            for site in ext_sites:
+                if "ws" in site["filter_atoms"] and strip(site["ch"]) == ("param", 2, ("1",)):
+                    run.ok("C17.W1", "cells are extended from a filter that requires !ch.is_whitespace() of the inserted char", where(site["term"]),
+                           "is_whitespace covers space, tab, CR, LF (%d code points)" % WHITESPACE.count())
+                else:
+                    run.bad("C17.W1", "whitespace-cell", where(site["term"]),
+                            "cells are inserted without a `!ch.is_whitespace()` filter on the inserted character: trailing blanks / CR could become cells")
+        run.floor("C17.W1", "cell_inserts", len(inserts) + len(ext_sites), 1)
         for bid, t in inserts:
             ch_expr = ex.operand(t["args"][-1])
             ok = False
